@@ -7,7 +7,7 @@
 From Coq Require Import List PArith ZArith Bool String.
 From SV Require Import SM.Store SM.StoreProofs SM.StoreCert SM.StoreCertProofs SM.StoreCopy SM.StoreCopyProofs
   SM.StoreExamples SM.KvAdd SM.KvAddProofs SM.StoreCopySrc SM.StoreCopySrcProofs SM.KvAddFresh SM.KvAddFreshProofs
-  SM.StoreCopyExport SM.StoreCopyExportProofs SM.StoreCopyFlow SM.StoreCopyFlowProofs SM.OpPurity SM.OpPurityProofs SM.CollapseCensus SM.CollapseCensusProofs
+  SM.StoreCopyExport SM.StoreCopyExportProofs SM.StoreCopyFlow SM.StoreCopyFlowProofs SM.StoreCopyWholeProofs SM.OpPurity SM.OpPurityProofs SM.CollapseCensus SM.CollapseCensusProofs
   Gen.CopyCensus_gen Gen.CopyExportReads_gen Gen.C09OpCensus_gen Gen.C09Collapse_gen.
 Import ListNotations.
 
@@ -389,4 +389,79 @@ Theorem c09_all_classes_args_lossless : all_args_lossless = true ->
 Proof.
   unfold all_args_lossless. rewrite forallb_forall. intros H label c Hin. specialize (H _ Hin). cbn [fst snd] in H.
   destruct (lookup label all_flows) as [fl|] eqn:E; [|discriminate]. exists fl. split; [reflexivity | exact H].
+Qed.
+
+(** ROUND 3 — THE WHOLE PROPERTY FOR ONE COPY METHOD, over the observation the property speaks of (the export =
+    masked unfolding): the frame theorem holds for the masked observation too, and the three strands compose.
+    If the census of a class is fresh, built from its own source fields and covers everything export reads, and the
+    copy's fields are related to the original's as the census says, then
+      (1) the copy exports like the original,
+      (2) after EVERY mutation history through the copy the original still exports as before the copy was made,
+      (3) after EVERY mutation history through the original the copy still exports like the original did when copied. *)
+Theorem c09_frame_masked_observation : forall (mk : loc -> list bool) ms h R h' R' a,
+  closed h -> alloc h a -> roots_alloc h R -> sep h a R -> steps (h, R) ms (h', R') ->
+  forall n, munfold mk n h' (VRef a) = munfold mk n h (VRef a).
+Proof. exact frame_masked_observation. Qed.
+
+Theorem c09_copy_complete_and_independent :
+  forall (mk : loc -> list bool) (c : census) (s : srcmap) (reads : list string) h h' la lc nd nd',
+  closed h -> closed h' -> extends h h' -> h la = Some nd -> h lc = None -> h' lc = Some nd' ->
+  nmut nd' = nmut nd -> mk la = obs_mask c reads -> mk lc = obs_mask c reads ->
+  List.length (nfields nd) = List.length c ->
+  copy_fresh_mutables c = true -> copy_sources_match c s = true -> copy_export_ok c s reads = true ->
+  kinds_rel h c (nfields nd) ->
+  fields_rel_src h h' (nfields nd) (resolve c s) (nfields nd') ->
+  fields_rel_c mk h h' (nfields nd) (eresolve c s reads) (nfields nd') ->
+  mobs_eq mk h h' (VRef la) (VRef lc) /\
+  (forall ms h'' R, steps (h', [lc]) ms (h'', R) -> forall n, munfold mk n h'' (VRef la) = munfold mk n h (VRef la)) /\
+  (forall ms h'' R, steps (h', [la]) ms (h'', R) -> forall n, munfold mk n h'' (VRef lc) = munfold mk n h (VRef la)).
+Proof. exact copy_complete_and_independent. Qed.
+
+Theorem c09_copy_complete_and_independent_not_vacuous :
+  let h := ex_h in let h' := ex_h' 7%Z in
+  mobs_eq ex_mk h h' (VRef 1%positive) (VRef 2%positive) /\
+  (forall ms h'' R, steps (h', [2%positive]) ms (h'', R) ->
+     forall n, munfold ex_mk n h'' (VRef 1%positive) = munfold ex_mk n h (VRef 1%positive)) /\
+  (forall ms h'' R, steps (h', [1%positive]) ms (h'', R) ->
+     forall n, munfold ex_mk n h'' (VRef 2%positive) = munfold ex_mk n h (VRef 1%positive)).
+Proof. exact copy_complete_and_independent_applies. Qed.
+
+(** Completeness does not imply independence: a copy sharing a mutable field passes the export and source checks,
+    exports equally at copy time, fails [copy_fresh_mutables] — and one store through the copy changes the original. *)
+Theorem c09_complete_but_shared_refuted :
+  copy_export_ok sh_census sh_src sh_reads = true /\ copy_sources_match sh_census sh_src = true /\
+  copy_fresh_mutables sh_census = false /\
+  mobs_eq sh_mk sh_h sh_h' (VRef 1%positive) (VRef 2%positive) /\
+  exists h'', steps (sh_h', [2%positive]) [MStore 3%positive [VAtom 0%Z]] (h'', [2%positive]) /\
+              munfold sh_mk 2 h'' (VRef 1%positive) <> munfold sh_mk 2 sh_h (VRef 1%positive).
+Proof. exact complete_but_shared_refuted. Qed.
+
+(** ... for every copy method of the generated table at once: the three table-level booleans (each an instance
+    obligation of the check) give, for every census, the whole statement above. *)
+Theorem c09_all_classes_complete_and_independent :
+  all_fresh = true -> all_sources_match = true -> all_export_ok = true ->
+  forall label c, In (label, c) all_census ->
+  exists s cls reads, lookup label all_sources = Some s /\ lookup label class_of_label = Some cls /\
+    lookup cls all_export_reads = Some reads /\
+    forall (mk : loc -> list bool) h h' la lc nd nd',
+      closed h -> closed h' -> extends h h' -> h la = Some nd -> h lc = None -> h' lc = Some nd' ->
+      nmut nd' = nmut nd -> mk la = obs_mask c reads -> mk lc = obs_mask c reads ->
+      List.length (nfields nd) = List.length c ->
+      kinds_rel h c (nfields nd) ->
+      fields_rel_src h h' (nfields nd) (resolve c s) (nfields nd') ->
+      fields_rel_c mk h h' (nfields nd) (eresolve c s reads) (nfields nd') ->
+      mobs_eq mk h h' (VRef la) (VRef lc) /\
+      (forall ms h'' R, steps (h', [lc]) ms (h'', R) -> forall n, munfold mk n h'' (VRef la) = munfold mk n h (VRef la)) /\
+      (forall ms h'' R, steps (h', [la]) ms (h'', R) -> forall n, munfold mk n h'' (VRef lc) = munfold mk n h (VRef la)).
+Proof.
+  intros Hfr Hsm Hex label c Hin.
+  destruct (c09_all_classes_export_ok Hex label c Hin) as (s & cls & reads & E1 & E2 & E3 & Hok).
+  exists s, cls, reads. repeat (split; [assumption|]).
+  assert (Hf : copy_fresh_mutables c = true).
+  { unfold all_fresh in Hfr. rewrite forallb_forall in Hfr. exact (Hfr _ Hin). }
+  assert (Hs : copy_sources_match c s = true).
+  { unfold all_sources_match in Hsm. rewrite forallb_forall in Hsm. specialize (Hsm _ Hin). cbn [fst snd] in Hsm.
+    unfold lookup in E1. destruct (find (fun q => String.eqb (fst q) label) all_sources) as [q|]; [|discriminate].
+    cbn in E1. inversion E1; subst s. exact Hsm. }
+  intros. eapply c09_copy_complete_and_independent; eauto.
 Qed.
